@@ -49,6 +49,23 @@ def _linear(expr: ast.AST, env: dict[str, dict[str, int]]) -> dict[str, int]:
 def r1_no_truncation(ctx: Ctx) -> None:
     fn = _emit(ctx)
     packs = [c for c in calls_in(fn.node, "struct.pack")]
+    if not packs:
+        # no struct.pack at all: the displacement byte is produced some other way; read the returned bytes in byte-level normal form - the last
+        # byte must be range-checked (a masked or wrapped byte never raises for a far target)
+        from ..match import packed_bytes, returns_of
+
+        for r_ in returns_of(fn.node):
+            if r_.value is None:
+                continue
+            try:
+                bs = packed_bytes(r_.value.right if isinstance(r_.value, ast.BinOp) and isinstance(r_.value.op, ast.Add) else r_.value)
+            except AnalysisError as e:
+                raise AnalysisError(f"RelativeJumpOpcode.emit: displacement byte not modelled ({e})") from e
+            if bs:
+                ctx.check(bs[-1].checked and bs[-1].signed, "RelativeJumpOpcode.emit:format", f"the displacement byte must be a range-checked signed byte (struct 'b'); found `{bs[-1]}`: "
+                          "a displacement outside -128..127 is wrapped into range instead of being rejected", fact=True)
+                return
+        raise AnalysisError("RelativeJumpOpcode.emit: expected one struct.pack for the displacement")
     if len(packs) != 1:
         raise AnalysisError("RelativeJumpOpcode.emit: expected one struct.pack for the displacement")
     fmt, args = pack_call(packs[0])  # type: ignore[misc]
@@ -131,6 +148,12 @@ def r2_bias_equals_length(ctx: Ctx) -> None:
     const = got.get((), 0)  # type: ignore[union-attr]
     terms = {k: v for k, v in got.items() if k}  # type: ignore[union-attr]
     want_terms = {k: v for k, v in poly_of_source("resolver.get_bus().get_address(value).physical - resolver.pc").items() if k}
+    if terms != want_terms:
+        # a term built from a local that is bound more than once (a reused variable) cannot be read off flow-insensitively: not decided
+        multi = {n_ for n_ in {x.id for x in ast.walk(fn.node) if isinstance(x, ast.Name) and isinstance(x.ctx, ast.Store)}
+                 if sum(1 for x in ast.walk(fn.node) if isinstance(x, ast.Name) and isinstance(x.ctx, ast.Store) and x.id == n_) > 1}
+        if any(m_ in str(k_) for k_ in terms for m_ in multi):
+            raise AnalysisError(f"RelativeJumpOpcode.emit: the displacement is built from a local bound more than once ({sorted(multi)}); not decided")
     ctx.check(terms == want_terms, "RelativeJumpOpcode.emit:displacement-terms", f"displacement = target.physical - resolver.pc (+const); found {show_poly(got)}")  # type: ignore[arg-type]
     ctx.check(const == -length, "RelativeJumpOpcode.emit:bias", f"the constant bias is {const}; the branch is relative to the next instruction, i.e. -supposed_length() = {-length}")
     vsrc = [n for n in walk_no_nested(fn.node) if isinstance(n, ast.Assign) and unparse(n.targets[0]) == "value"]
@@ -169,9 +192,9 @@ def r3_both_ends_checked(ctx: Ctx) -> None:
                 continue
             for p in parts:
                 if isinstance(p, ast.Compare) and len(p.ops) == 1 and isinstance(p.ops[0], ast.Is) and unparse(p.comparators[0]) == "None":
-                    from ..match import canon as _canon5
+                    from ..match import canon_at as _canon5
 
-                    checked.add(_canon5(fn.node, p.left))
+                    checked.add(_canon5(fn.node, g, tn, p.left))
     want = {"resolver.get_bus().get_address(value_node.get_value()).physical": "target",
             "resolver.reloc_address.physical": "run address of the branch"}
     for expr, what in want.items():
